@@ -3,7 +3,7 @@
 //! `nsverif limits fn <in> <out>`    function-level: one count vector + caps per line, the real
 //!                                   `first_exceeded_limit` is called on facts/counts built with
 //!                                   exactly those sizes (public API and public fields only).
-//! `nsverif limits progs <list> <out> [arena_mib] [nofull]`   the same for every `<id> <path>` line of <list>,
+//! `nsverif limits progs <list> <out> [arena_mib] [nofull] [sumx]`   the same for every `<id> <path>` line of <list>,
 //!                                   one JSON object per line.
 //! `nsverif limits prog <src> <out> [arena_mib] [nofull]`
 //!                                   program-level: parser + resolver (the real gate) + runtime,
@@ -306,13 +306,17 @@ fn plan_json(p: Option<&OptimizationPlan<'_>>) -> String {
             }
             let head: Vec<String> = p.removable_stmts.iter().take(12).map(|s| s.0.to_string()).collect();
             let fhead: Vec<String> = p.removable_function_defs.iter().take(12).map(|s| s.0.to_string()).collect();
+            let rs_low: Vec<String> = p.removable_stmts.iter().filter(|s| s.0 < 256).map(|s| s.0.to_string()).collect();
+            let rf_low: Vec<String> = p.removable_function_defs.iter().filter(|s| s.0 < 256).map(|s| s.0.to_string()).collect();
             format!(
-                "{{\"rs\":{},\"rf\":{},\"h\":\"{:016x}\",\"rs_head\":[{}],\"rf_head\":[{}]}}",
+                "{{\"rs\":{},\"rf\":{},\"h\":\"{:016x}\",\"rs_head\":[{}],\"rf_head\":[{}],\"rs_low\":[{}],\"rf_low\":[{}]}}",
                 p.removable_stmts.len(),
                 p.removable_function_defs.len(),
                 h,
                 head.join(","),
-                fhead.join(",")
+                fhead.join(","),
+                rs_low.join(","),
+                rf_low.join(",")
             )
         }
     }
@@ -370,10 +374,10 @@ fn run_once_inner<'a>(
         let s = format!("{v}");
         fnv(&mut h, s.as_bytes());
         fnv(&mut h, b"\n");
-        if i < 6 {
+        if i < 24 {
             head.push(jstr(&s));
         }
-        if i + 3 >= n && i >= 6 {
+        if i + 3 >= n && i >= 24 {
             tail.push(jstr(&s));
         }
     }
@@ -387,7 +391,55 @@ fn run_once_inner<'a>(
     )
 }
 
+static SUMX: std::sync::atomic::AtomicBool = std::sync::atomic::AtomicBool::new(false);
+
+fn class_rank(c: naijascript::analysis::effects::ExprClass) -> u64 {
+    use naijascript::analysis::effects::ExprClass;
+    match c {
+        ExprClass::PureNoTrap => 0,
+        ExprClass::PureMayTrap => 1,
+        ExprClass::Impure => 2,
+    }
+}
+
+fn unavailable(s: &[summary::FunctionSummary<'_>]) -> usize {
+    s.iter().filter(|x| !x.available).count()
+}
+
+/// Exact-budget probes of the summary fixpoint through the public API: the number of rows the
+/// unbounded run inserts (set growth + class steps) must be a sufficient budget, one less than
+/// the rows that certainly cost an event must not be, and the preflight estimate must suffice.
+fn summary_exactness(facts: &ProgramFacts<'_, '_>, scratch: &Arena) -> String {
+    let inf = summary::compute_summaries_with_max_events(facts, u64::MAX, scratch);
+    let mut ins: u64 = 0;
+    let mut cls_changed: u64 = 0;
+    let mut cls_dist: u64 = 0;
+    for x in &inf {
+        ins += (x.transitive_callees.len() - x.direct_callees.len()) as u64;
+        ins += (x.transitive_capture_reads.len() - x.direct_capture_reads.len()) as u64;
+        ins += (x.transitive_capture_writes.len() - x.direct_capture_writes.len()) as u64;
+        if x.transitive_class != x.body_class {
+            cls_changed += 1;
+        }
+        cls_dist += class_rank(x.transitive_class) - class_rank(x.body_class);
+    }
+    let f = facts.functions.len() as u128;
+    let l = facts.locals.len() as u128;
+    let est = u64::try_from(f * (f + 2 * l + 2)).unwrap_or(u64::MAX);
+    let ub = ins + cls_dist;
+    let lb = ins + cls_changed;
+    let un_ub = unavailable(&summary::compute_summaries_with_max_events(facts, ub, scratch));
+    let un_est = unavailable(&summary::compute_summaries_with_max_events(facts, est, scratch));
+    let un_lb1: i64 =
+        if lb > 0 { unavailable(&summary::compute_summaries_with_max_events(facts, lb - 1, scratch)) as i64 } else { -1 };
+    format!(
+        "{{\"ins\":{ins},\"cls_changed\":{cls_changed},\"cls_dist\":{cls_dist},\"est\":{est},\"unavail_inf\":{},\"unavail_ub\":{un_ub},\"unavail_est\":{un_est},\"unavail_lb1\":{un_lb1}}}",
+        unavailable(&inf)
+    )
+}
+
 struct Full<'a> {
+    summ: String,
     plan: OptimizationPlan<'a>,
     warnings: String, // JSON list [[kind, stmt_id, span_start], ...] in emission order before sorting
 }
@@ -400,6 +452,11 @@ fn full_analysis<'a>(facts: &ProgramFacts<'a, 'a>, counts: &ProgramCounts<'_>, s
     let unreachable = reachability::unreachable_statements(program, scratch);
     let summaries = summary::compute_summaries(facts, scratch);
     let summaries: &'a Vec<summary::FunctionSummary<'a>, &'a Arena> = scratch_leak(scratch, summaries);
+    let mut summ = format!("{{\"unavail\":{}", unavailable(summaries));
+    if SUMX.load(std::sync::atomic::Ordering::Relaxed) {
+        let _ = write!(summ, ",\"x\":{}", summary_exactness(facts, scratch));
+    }
+    summ.push('}');
     let function_reachability = adiag::compute_function_reachability(program, facts, &reachable, scratch);
     let unused_assignments = liveness::unused_assignments(program, facts, summaries, &reachable, scratch);
     let unused_variables =
@@ -439,7 +496,7 @@ fn full_analysis<'a>(facts: &ProgramFacts<'a, 'a>, counts: &ProgramCounts<'_>, s
         push("F", x.stmt_id.0, x.span.start);
     }
     w.push(']');
-    Full { plan, warnings: w }
+    Full { summ, plan, warnings: w }
 }
 
 /// Moves a value into the arena so it can be borrowed for the arena's lifetime (never dropped;
@@ -475,6 +532,7 @@ impl Arenas {
 fn run_prog(src_path: &str, output: &str, rest: &[String]) -> ExitCode {
     let arena_mib: usize = rest.first().and_then(|s| s.parse().ok()).unwrap_or(256);
     let nofull = rest.iter().any(|s| s == "nofull");
+    SUMX.store(rest.iter().any(|s| s == "sumx"), std::sync::atomic::Ordering::Relaxed);
     let src = fs::read_to_string(src_path).expect("read source");
     let arenas = Arenas::new(arena_mib);
     let o = prog_json(Box::leak(src.into_boxed_str()), &arenas, nofull);
@@ -488,6 +546,7 @@ fn run_progs(list: &str, output: &str, rest: &[String]) -> ExitCode {
     use std::io::Write as _;
     let arena_mib: usize = rest.first().and_then(|s| s.parse().ok()).unwrap_or(256);
     let nofull = rest.iter().any(|s| s == "nofull");
+    SUMX.store(rest.iter().any(|s| s == "sumx"), std::sync::atomic::Ordering::Relaxed);
     let text = fs::read_to_string(list).expect("read list");
     let arenas = Arenas::new(arena_mib);
     let mut out = fs::File::create(output).expect("create output");
@@ -578,7 +637,7 @@ fn prog_json(src: &'static str, a: &Arenas, nofull: bool) -> String {
         };
         t_full = t2.elapsed().as_millis();
         if let Some(f) = &full {
-            let _ = write!(o, ",\"full\":{{\"plan\":{},\"warn\":{}}}", plan_json(Some(&f.plan)), f.warnings);
+            let _ = write!(o, ",\"full\":{{\"plan\":{},\"warn\":{},\"summ\":{}}}", plan_json(Some(&f.plan)), f.warnings, f.summ);
         }
         let t3 = Instant::now();
         let plan_ref = resolver.optimization_plan.as_ref();
